@@ -711,7 +711,7 @@ def fam_edges(kind, n):
     return []
 
 
-FAMS = ["path", "cycle", "complete", "star", "circ2", "grid", "cliques", "rand", "hubtwin"]
+FAMS = ["path", "cycle", "complete", "star", "circ2", "grid", "cliques", "rand", "hubtwin", "hubtwin_dir", "w5"]
 WTS = [0.1, 0.2, 0.3]
 
 
@@ -756,6 +756,31 @@ class C17Prop(CommProp):
             directed = 1 if r.below(5) < 2 else 0
             wmode = r.pick(["unw", "one", "idx", "sum", "rnd", "rnd"])
             edges = []
+            if kind == "w5":
+                # a directed graph with inexact weights on which a node has several predecessors in one community and
+                # an equally good competing community: the in-edge weights must be folded in a fixed order
+                directed, wmode, es = 1, "rnd", []
+                base = [(0, 2, 0.3), (1, 2, 0.6), (1, 3, 0.3), (1, 4, 0.6), (2, 3, 0.4), (3, 1, 0.6), (3, 2, 0.3),
+                        (4, 1, 0.3), (4, 3, 0.2)]
+                perm = r.shuffle(list(range(5))) if r.below(2) else list(range(5))
+                edges = [(perm[u], perm[v], w, None) for (u, v, w) in (r.shuffle(base) if r.below(2) else base)]
+            if kind == "hubtwin_dir":
+                # the directed form of hubtwin: the hub has three inexactly weighted IN-edges from each of two
+                # identical heavy (bidirected) cliques
+                k = 3 + r.below(2)
+                heavy = r.pick([1, 2, 4])
+                directed, wmode, es = 1, "rnd", []
+                sp = r.shuffle(WTS)
+                for base in (1, 1 + k):
+                    for a in range(k):
+                        for b in range(k):
+                            if a != b:
+                                edges.append((base + a, base + b, heavy, None))
+                    for j in range(3):
+                        edges.append((base + j, 0, sp[j], None))
+                        if r.below(2):
+                            edges.append((0, base + j, sp[(j + 1) % 3], None))
+                edges = r.shuffle(edges) if r.below(2) else edges
             if kind == "hubtwin":
                 # a hub joined by inexact weights (0.1, 0.2, 0.3 in some order) to each of two identical heavy
                 # cliques: once the cliques have formed the hub's gains towards them are mathematically equal,
@@ -783,6 +808,8 @@ class C17Prop(CommProp):
             gn, gd = r.pick([(1, 1), (1, 2), (3, 2), (0, 0)])
             calls = [("repro_louv", 0 if wmode == "unw" else 1, gn, gd, r.pick([0, 0, 1, 3]),
                       0 if i % 16 == 5 else r.below(21))]
+            if kind == "w5":
+                calls = [("repro_louv", 1, 1, 1, 0, sd) for sd in (1, 2, 3)]
             cases.append({"id": "r%d" % i, "spec": (directed, 0, 1, 0, 0, 0), "nodes": nodes, "edges": edges,
                           "calls": calls})
         return cases
